@@ -64,6 +64,9 @@ def gen_case(rng):
                 mode=rng.choice(["initialize", "scan", "scan+initialize"]),
                 delays=[rng.choice([0.0001, 0.0002, 0.001]) for _ in
                         range(20)], rseed=rng.getrandbits(32),
+                # transport faults: some reply frames arrive truncated
+                faults=rng.choice([0, 0, 0, 0.02, 0.06]),
+                faultseed=rng.getrandbits(32),
                 serials=[rng.choice([0, rng.getrandbits(24) + 1])
                          for _ in range(n)])
 
@@ -95,10 +98,16 @@ def run_case(case):
         ec.terminal_addr_range = tuple(case["range"])
         k = [0]
 
+        frng = random.Random(case.get("faultseed", 0))
+
         def policy(nf, data):
             k[0] += 1
-            return [(case["delays"][k[0] % len(case["delays"])],
-                     b.process(data))]
+            resp = b.process(data)
+            if case.get("faults") and frng.random() < case["faults"] \
+                    and len(resp) > 20:
+                resp = resp[:frng.randint(16, len(resp) - 1)]
+                result["truncated"] = result.get("truncated", 0) + 1
+            return [(case["delays"][k[0] % len(case["delays"])], resp)]
         bus.attach(ec, loop, b, policy)
         if "scan" in case["mode"]:
             result["scan"] = await asyncio.wait_for(
@@ -127,8 +136,12 @@ def check_case(case, res):
     if "watchdog" in result:
         res.inconc(f"wall-clock watchdog fired for {case}")
         return
-    if "error" in result:
-        full = len(case["pre"]) + case["n"] > hi - lo + 1
+    res.count("truncated_replies", result.get("truncated", 0))
+    if "error" in result and result.get("truncated"):
+        # a transport fault may make the initialisation fail; whatever
+        # was assigned before must still be unique
+        res.count("failed_under_transport_faults")
+    elif "error" in result:
         res.violation("unexplained:raised", result["error"], case=case)
         return
     answered = set(int(v) for v in case["pre"].values())
@@ -151,14 +164,15 @@ def check_case(case, res):
                       f"final addresses not distinct: {sorted(final)}",
                       case=case)
         return
-    if "positions" in result:
+    if "positions" in result and not result.get("truncated"):
         if result["positions"] != [t.station for t in terms]:
             res.violation("unexplained:position-mismatch",
                           f"Terminal.position {result['positions'][:8]} vs "
                           f"registers {[t.station for t in terms][:8]}",
                           case=case)
             return
-    if "scan" in result and case["mode"] == "scan":
+    if "scan" in result and case["mode"] == "scan" and \
+            not result.get("truncated"):
         for i, t in enumerate(terms):
             if t.station == 0:
                 res.violation("unexplained:scan-left-unaddressed",
